@@ -44,6 +44,11 @@ RULE = ("per case a real ChargingNetwork (1-8 EVSEs with voltages and phase angl
         "tolerances given to the constructor and/or the call, a {station: rates} mapping with 0-5 periods (omitted "
         "stations, foreign keys, shuffled order, empty, ragged) scaled so that the worst constraint (phase-aware or "
         "linear) sits at limit + k*tol, k in {-3,-1,-0.01,+0.01,1,3} (k = 0 exactly on the dyadic angle-0 stream); "
+        "a third of the non-exact cases continue with a HISTORY on the same network and the same Interface object: 1-3 "
+        "steps of add_constraint / remove_constraint (first, middle, last) / update_constraint (new limit, new "
+        "coefficients, new name), each followed by a re-query of all entry points with a schedule placed at the "
+        "changed constraint's edge or between the removed/old version's edge and the current constraints' edge, "
+        "judged against the CURRENT constraints; "
         "non-trivial = constrained case with |k| <= 3 and a mixed-sign or multi-phase row active, or a "
         "constraint-free / ragged case; distinct by hash of the case")
 
@@ -165,7 +170,175 @@ def _scale_to_edge(case, S, k, target):
     return [[v * best for v in r] for r in S]
 
 
-def _gen_case(rng, exact=False):
+def _edge_scale(stations, cons, vt, rt, S, k, target):
+    """the factor λ for which λ·S puts the worst (constraint, period) of `cons` at bound + k*tol; None if
+    no constraint of `cons` is touched by S."""
+    ids = [s["id"] for s in stations]
+    ph = [_phasor(s["phase"]) for s in stations]
+    T = len(S[0]) if S else 0
+    best = None
+    for c in cons:
+        row = [float(c["coeffs"].get(i, 0.0)) for i in ids]
+        lim = c["limit"]
+        tol = max(vt, rt * lim)
+        goal = lim + tol + k * (tol if tol > 0 else 1e-5)
+        if goal <= 0:
+            continue
+        for t in range(T):
+            if target == "linear":
+                mag = abs(sum(abs(a) * S[j][t] for j, a in enumerate(row)))
+            else:
+                mag = abs(sum(a * S[j][t] * ph[j] for j, a in enumerate(row)))
+            if mag > 1e-9:
+                lam = goal / mag
+                if best is None or lam < best:
+                    best = lam
+    return best
+
+
+def _apply_ops(cons, ops):
+    """specification of the constraint list after add / remove / update (update = remove + append under the
+    same or the new name, charging_network.py:303-324)."""
+    cur = [dict(c) for c in cons]
+    for o in ops:
+        if o["op"] == "add":
+            cur.append({"name": o["name"], "coeffs": dict(o["coeffs"]), "limit": o["limit"]})
+        elif o["op"] == "remove":
+            cur = [c for c in cur if c["name"] != o["name"]]
+        elif o["op"] == "update":
+            cur = [c for c in cur if c["name"] != o["name"]]
+            cur.append({"name": o.get("new_name") or o["name"], "coeffs": dict(o["coeffs"]), "limit": o["limit"]})
+    return cur
+
+
+def _views(case):
+    """one case-like dict per query: the initial query, then one per history step with the CURRENT constraints."""
+    base = {k: v for k, v in case.items() if k != "history"}
+    out = [base]
+    cur = case["constraints"]
+    for i, step in enumerate(case.get("history") or []):
+        cur = _apply_ops(cur, step["ops"])
+        v = dict(base)
+        v.update({"constraints": cur, "sched": step["sched"], "k": step.get("k"), "target": step.get("target", "phasor"),
+                  "sel": step.get("sel"), "call_tol": step.get("call_tol", base.get("call_tol")),
+                  "step": i + 1, "ops": step["ops"]})
+        out.append(v)
+    return out
+
+
+def _gen_history(rng, case):
+    """1-3 steps on the SAME network and Interface: each applies 1-2 of add_constraint / remove_constraint
+    (first, middle, last) / update_constraint (same name, new limit and/or new coefficients, sometimes a new
+    name) and re-queries with a schedule scaled to the boundary of what changed: the new constraint's edge, or
+    between the edges of the removed / old version (the 'ghost') and the current constraints."""
+    st = case["stations"]
+    ids = [s["id"] for s in st]
+    cur = [dict(c) for c in case["constraints"]]
+    fresh = [0]
+    steps = []
+
+    def new_row():
+        rows = _dy_rows(rng, st) if len(st) >= 2 and rng.random() < 0.5 else _rand_rows(rng, st, False)
+        return rng.choice(rows)
+
+    def new_limit():
+        return float(rng.choice([rng.choice([10, 20, 32, 80, 100, 180, 400]), round(rng.uniform(5, 500), 3)]))
+
+    for _ in range(rng.randint(1, 3)):
+        ops, ghosts, focus = [], [], []
+        T = rng.choice([1, 1, 2, 3])
+        S = [[(rng.uniform(1, 32) if rng.random() < 0.85 else 0.0) for _ in range(T)] for _ in ids]
+        vt0, rt0 = _tols(case)
+        for _ in range(1 if rng.random() < 0.8 else 2):
+            kinds = ["add"] + (["remove", "remove", "update_limit", "update_limit", "update_coeffs", "update_rename"] if cur else [])
+            kind = rng.choice(kinds)
+            if kind == "add":
+                fresh[0] += 1
+                o = {"op": "add", "name": f"h{fresh[0]}", "coeffs": new_row(), "limit": new_limit()}
+                focus.append(o["name"])
+            else:
+                pos = rng.choice(["first", "middle", "last"])
+                i = 0 if pos == "first" else len(cur) - 1 if pos == "last" else len(cur) // 2
+                if rng.random() < 0.5:
+                    # change the constraint that binds first under this step's schedule
+                    lams = [_edge_scale(st, [c], vt0, rt0, S, 1.0, "phasor") for c in cur]
+                    cand = [(l, j) for j, l in enumerate(lams) if l is not None]
+                    if cand:
+                        i = min(cand)[1]
+                        pos = "first" if i == 0 else "last" if i == len(cur) - 1 else "middle"
+                        pos += "/binding"
+                old = cur[i]
+                ghosts.append(dict(old))
+                if kind == "remove":
+                    o = {"op": "remove", "name": old["name"], "pos": pos}
+                else:
+                    lim = old["limit"] * rng.choice([0.5, 0.8, 1.25, 2.0]) if kind != "update_coeffs" or rng.random() < 0.5 else old["limit"]
+                    if old["limit"] <= 0:
+                        lim = new_limit()
+                    coeffs = new_row() if kind == "update_coeffs" else dict(old["coeffs"])
+                    o = {"op": "update", "name": old["name"], "coeffs": coeffs, "limit": float(lim), "pos": pos, "how": kind}
+                    if kind == "update_rename":
+                        fresh[0] += 1
+                        o["new_name"] = f"r{fresh[0]}"
+                    focus.append(o.get("new_name") or o["name"])
+            ops.append(o)
+            cur = _apply_ops(cur, [o])
+        view = dict(case, constraints=cur)
+        call_tol = case.get("call_tol") if rng.random() < 0.8 else rng.choice([None, [1e-3, None], [1e-4, 1e-5]])
+        view["call_tol"] = call_tol
+        vt, rt = _tols(view)
+        touched = set()
+        for c in ghosts + [c for c in cur if c["name"] in focus]:
+            touched |= {i for i, a in c["coeffs"].items() if a}
+        S = [[(v if v or i not in touched else rng.uniform(1, 32)) for v in S[ids.index(i)]] for i in ids]
+        k = rng.choice(KS)
+        target = rng.choice(["phasor", "phasor", "linear"])
+        lam_cur = _edge_scale(st, cur, vt, rt, S, k, target)
+        lam_in = _edge_scale(st, cur, vt, rt, S, -1.0, target)
+        lam_focus = _edge_scale(st, [c for c in cur if c["name"] in focus], vt, rt, S, k, target)
+        lam_ghost = _edge_scale(st, ghosts, vt, rt, S, rng.choice([0.01, 1.0, 3.0, 3.0]), target) if ghosts else None
+        mode = rng.random()
+        lam = None
+        if ghosts and lam_ghost is not None and mode < 0.6:
+            if lam_in is None:
+                lam, how = lam_ghost * rng.choice([1.0, 1.2, 2.0]), "ghost_only"
+            elif lam_ghost <= lam_in:
+                # the removed / old version is violated, the current constraints are not
+                lam, how = rng.choice([lam_ghost, math.sqrt(lam_ghost * lam_in), lam_in]), "ghost_violated_current_ok"
+            else:
+                # the current constraints are violated before the old version is (tightened)
+                lam, how = rng.choice([lam_ghost, math.sqrt(lam_ghost * lam_in)]), "current_violated_before_ghost"
+        elif lam_focus is not None and mode < 0.85:
+            lam, how = lam_focus, "changed_constraint_edge"
+        elif lam_cur is not None:
+            lam, how = lam_cur, "worst_current_edge"
+        else:
+            how = "unscaled"
+        if lam is not None:
+            S = [[v * lam for v in r] for r in S]
+        order = list(ids)
+        rng.shuffle(order)
+        sched = {i: S[ids.index(i)] for i in order if any(S[ids.index(i)]) or rng.random() < 0.7} or {ids[0]: S[0]}
+        step = {"ops": ops, "sched": sched, "k": k, "target": target, "scaled": how, "call_tol": call_tol}
+        if cur and rng.random() < 0.4:
+            names = [c["name"] for c in cur]
+            pick = [n for n in names if rng.random() < 0.6] + ([ghosts[0]["name"]] if ghosts and rng.random() < 0.5 else [])
+            rng.shuffle(pick)
+            step["sel"] = {"names": pick, "ts": None if rng.random() < 0.5 else [rng.randrange(T) for _ in range(rng.randint(1, 3))]}
+        steps.append(step)
+    return steps
+
+
+def _gen_case(rng, exact=False, history=False):
+    case = _gen_case0(rng, exact)
+    if history and not exact:
+        lens = {len(v) for v in case["sched"].values()}
+        if len(lens) <= 1:
+            case["history"] = _gen_history(rng, case)
+    return case
+
+
+def _gen_case0(rng, exact=False):
     st, amode = _stations(rng, exact)
     r = rng.random()
     if r < 0.1:
@@ -321,7 +494,7 @@ def generate(rng, n, tier):
     out = []
     if tier == "thorough":
         out = _small_scope(rng, n // 4)
-    return out + [_gen_case(rng, exact=(i % 5 == 4)) for i in range(n - len(out))]
+    return out + [_gen_case(rng, exact=(i % 5 == 4), history=(i % 3 == 0)) for i in range(n - len(out))]
 
 
 # ------------------------------------------------------------------ implementation
@@ -372,9 +545,36 @@ def _run_schedulers(case):
     return out
 
 
+def _apply_ops_impl(net, ops):
+    from acnportal.acnsim.network import Current
+    for o in ops:
+        if o["op"] == "add":
+            net.add_constraint(Current(dict(o["coeffs"])), o["limit"], name=o["name"])
+        elif o["op"] == "remove":
+            net.remove_constraint(o["name"])
+        elif o["op"] == "update":
+            net.update_constraint(o["name"], Current(dict(o["coeffs"])), o["limit"], new_name=o.get("new_name"))
+
+
 def run_impl(case):
-    from acnportal.algorithms.utils import infrastructure_constraints_feasible as icf
     net, iface = _build(case)
+    views = _views(case)
+    obs = _query(views[0], net, iface)
+    if len(views) > 1:
+        obs["history"] = []
+        for v in views[1:]:
+            try:
+                _apply_ops_impl(net, v["ops"])
+            except Exception as ex:  # noqa
+                obs["history"].append({"op_err": f"{type(ex).__name__}: {ex}"})
+                break
+            # the SAME network and the SAME Interface object are queried again
+            obs["history"].append(_query(v, net, iface))
+    return obs
+
+
+def _query(case, net, iface):
+    from acnportal.algorithms.utils import infrastructure_constraints_feasible as icf
     ids = [s["id"] for s in case["stations"]]
     cvt, crt = case.get("call_tol") or (None, None)
     vt, rt = _tols(case, [float(net.violation_tolerance), float(net.relative_tolerance)])
@@ -409,7 +609,7 @@ def run_impl(case):
         obs["infra"]["get_constraints_shape"] = [int(x) for x in gc.constraint_matrix.shape]
     except Exception as ex:  # noqa
         obs["infra"] = {"err": type(ex).__name__}
-    if not case["constraints"]:
+    if not case["constraints"] and not case.get("step"):
         obs["schedulers"] = _run_schedulers(case)
     # dense matrix (harness-side densification, used for the network and algorithm side)
     lens = {len(v) for v in sched.values()}
@@ -460,11 +660,23 @@ def run_impl(case):
 def model_request(case, obs):
     if "__harness_exception__" in obs:
         return None
+    views = _views(case)
+    if len(views) == 1:
+        return _req(views[0], obs)
+    reqs = [_req(views[0], obs)]
+    for v, o in zip(views[1:], obs.get("history", [])):
+        if "op_err" in o:
+            break
+        reqs.append(_req(v, o))
+    return {"batch": reqs}
+
+
+def _req(case, obs):
     M = _matrix(case)
     cvt, crt = case.get("call_tol") or (None, None)
     req = {
         "stations": [s["id"] for s in case["stations"]],
-        "has_matrix": bool(case["constraints"]), "cols": len(case["stations"]),
+        "has_matrix": bool(case["constraints"]) or bool(case.get("step")), "cols": len(case["stations"]),
         "M": [[f2b(x) for x in r] for r in M], "lims": [f2b(c["limit"]) for c in case["constraints"]],
         "cids": [c["name"] for c in case["constraints"]],
         "c_net": [f2b(x) for x in obs["c_net"]], "s_net": [f2b(x) for x in obs["s_net"]],
@@ -488,6 +700,23 @@ def _mres(v):
 
 
 def compare(case, obs, model):
+    views = _views(case)
+    if len(views) == 1:
+        return _compare_one(views[0], obs, model)
+    ms = model.get("batch") or []
+    out = _compare_one(views[0], obs, ms[0]) if ms else ["model: no batch answer"]
+    for i, (v, o) in enumerate(zip(views[1:], obs.get("history", []))):
+        if "op_err" in o:
+            out.append(f"after step {i + 1}: constraint operation raised {o['op_err']}")
+            break
+        if i + 1 >= len(ms):
+            out.append(f"after step {i + 1}: model answer missing")
+            break
+        out.extend(f"after step {i + 1} ({'+'.join(op['op'] for op in v['ops'])}): {d}" for d in _compare_one(v, o, ms[i + 1]))
+    return out
+
+
+def _compare_one(case, obs, model):
     out = []
     for k in ("iface", "iface_lin", "net", "net_lin", "alg", "alg_lin", "alg1", "alg1_lin"):
         if k in obs:
@@ -613,6 +842,20 @@ def oracle(case, obs):
 
 
 def _oracle(case, obs):
+    views = _views(case)
+    fails = list(_oracle_one(views[0], obs))
+    for i, (v, o) in enumerate(zip(views[1:], obs.get("history", []))):
+        what = "+".join(op["op"] + ("(" + op.get("how", op.get("pos", "")) + ")" if op["op"] != "add" else "") for op in v["ops"])
+        if "op_err" in o:
+            fails.append({"kind": "constraint_operation_exception", "detail": f"step {i + 1} ({what}): {o['op_err']}"})
+            break
+        for f in _oracle_one(v, o):
+            fails.append({"kind": f["kind"], "detail": f"after step {i + 1} ({what}) on the same network and Interface, "
+                          f"judged against the CURRENT constraints {[c['name'] for c in v['constraints']]}: " + f["detail"]})
+    return fails
+
+
+def _oracle_one(case, obs):
     fails = []
 
     def fail(kind, detail):
@@ -625,6 +868,9 @@ def _oracle(case, obs):
     want = _matrix(case)
     if cons and obs["matrix"] != want:
         fail("matrix_not_as_specified", f"stored={obs['matrix']} specified={want}")
+    if obs["cids"] != [c["name"] for c in cons] or obs["limits"] != [float(c["limit"]) for c in cons]:
+        fail("matrix_not_as_specified", f"names/limits stored={obs['cids']}/{obs['limits']} "
+             f"specified={[c['name'] for c in cons]}/{[c['limit'] for c in cons]}")
     # 1. infrastructure view
     inf = obs["infra"]
     if inf["err"] is not None:
@@ -762,7 +1008,7 @@ def _oracle(case, obs):
 def nontrivial(case, obs):
     if "__harness_exception__" in obs:
         return False
-    if not case["constraints"]:
+    if not case["constraints"] or case.get("history"):
         return True
     lens = {len(v) for v in case["sched"].values()}
     if len(lens) > 1:
@@ -804,6 +1050,18 @@ def features(case, obs):
         if k in obs:
             out.append(f"{k}:{obs[k]}")
     out.append("infra:" + ("ok" if obs["infra"]["err"] is None else obs["infra"]["err"]))
+    if case.get("history"):
+        out.append(f"history:steps:{len(case['history'])}")
+        for step, o in zip(case["history"], obs.get("history", [])):
+            for op in step["ops"]:
+                out.append("history:op:" + op["op"] + (":" + op["pos"] if "pos" in op else "") + (":" + op["how"] if "how" in op else ""))
+            out.append("history:scaled:" + step.get("scaled", "?"))
+            if "op_err" in o:
+                out.append("history:op_err")
+                continue
+            for k in ("net", "iface", "alg"):
+                if k in o:
+                    out.append(f"history:{k}:{o[k]}")
     if "sel_sq" in obs:
         sel = case["sel"]
         out.append("current_select:" + ("names" if sel["names"] is not None else "all") + "/" +
@@ -828,14 +1086,33 @@ def shrink(case, kind):
     changed = True
     while changed:
         changed = False
+        if cur.get("history"):
+            for cut in (1, len(cur["history"]) - 1):
+                if 0 < cut <= len(cur["history"]) - 1 or (cut == 1 and len(cur["history"]) > 1):
+                    c = copy.deepcopy(cur)
+                    c["history"] = c["history"][:cut]
+                    if bad(c):
+                        cur, changed = c, True
+                        break
+            if changed:
+                continue
+            c = copy.deepcopy(cur)
+            del c["history"]
+            if bad(c):
+                cur, changed = c, True
+                continue
         for i in range(len(cur["constraints"])):
             c = copy.deepcopy(cur)
+            if any(op.get("name") == c["constraints"][i]["name"] for st_ in c.get("history") or [] for op in st_["ops"]):
+                continue
             del c["constraints"][i]
             if bad(c):
                 cur, changed = c, True
                 break
         if changed:
             continue
+        if cur.get("history"):
+            break
         T = max((len(v) for v in cur["sched"].values()), default=0)
         for t in range(T):
             c = copy.deepcopy(cur)
